@@ -6,7 +6,8 @@ use crate::{
     error::{WriterError, WriterResult},
     reader::WriteXml,
 };
-use inflector::cases::{pascalcase::to_pascal_case, snakecase::to_snake_case};
+use super::structures::{as_rust_identifier, xml_name_to_rust_name};
+use inflector::cases::snakecase::to_snake_case;
 use roxmltree::Node;
 use std::{
     fmt::{Display, Formatter},
@@ -78,7 +79,7 @@ impl<'n> TryFromNode<'n> for Field {
 
         if let Some(ref_name) = node.attribute("ref") {
             let (xml_name, namespace_ref) = split_type(ref_name);
-            let rust_name = rename_keywords(&to_snake_case(xml_name)).to_string();
+            let rust_name = as_field_name(xml_name);
 
             if ref_name.starts_with("xml") {
                 /* This is a reference to an XML type */
@@ -117,7 +118,7 @@ impl<'n> TryFromNode<'n> for Field {
 
             let xml_name = ref_node.xml_name().ok_or(WriterError::InvalidReference)?;
             let rust_type = RustFieldType::Other(OtherRustType {
-                name: to_pascal_case(xml_name),
+                name: xml_name_to_rust_name(xml_name),
                 module,
             });
 
@@ -139,7 +140,7 @@ impl<'n> TryFromNode<'n> for Field {
             .ok_or_else(|| WriterError::attribute_missing(&node, "name"))?
             .to_string();
 
-        let rust_name = rename_keywords(&to_snake_case(&xml_name)).to_string();
+        let rust_name = as_field_name(&xml_name);
 
         let rust_type = node
             .attribute("type")
@@ -299,7 +300,7 @@ pub fn as_rust_type(node_type: &str, doc: &RustDocument) -> RustFieldType {
         "short" => RustFieldType::I16,
         "boolean" => RustFieldType::Bool,
         v => RustFieldType::Other(OtherRustType {
-            name: to_pascal_case(v),
+            name: xml_name_to_rust_name(v),
             module: match namespace {
                 Some(ns) => doc
                     .find_module_name_from_namespace_reference(ns)
@@ -315,7 +316,7 @@ pub fn as_rust_type(node_type: &str, doc: &RustDocument) -> RustFieldType {
 }
 
 pub fn as_field_name(xml_name: &str) -> String {
-    let field_name = to_snake_case(xml_name);
+    let field_name = as_rust_identifier(&to_snake_case(xml_name));
     rename_keywords(&field_name).to_string()
 }
 
